@@ -198,11 +198,11 @@ PROPS = {
         thorough=dict(checks=600, shards=8, timeout=3000),
     ),
     "C11": dict(
-        run="^(TestC11|TestC11StartupRace)$",
+        run="^(TestC11|TestC11StartupRace|TestC11MultiStream)$",
         level="exploration",
         rule=("scripts against the real MessageStreamer - two in three through a scripted StreamConnection, one in three through the real StreamingPull RPC over gRPC (limits in the initial request, acks in ack_ids, nacks as modify-deadline 0, and a `mixed` step that puts deadline 0 for some ack ids and 30 s for others into ONE request): flow-control limits (max messages 1,2,3,5,1000; max bytes below / at / above the payload sizes 12, 200, 5000), "
               "1-8 initial messages of mixed sizes, then 2-9 steps drawn from {stream ack, stream nack, gRPC-style nack (modify-deadline 0), Acknowledge outside the stream (one call, one call per id back to back, or concurrent calls), "
-              "`extack-window`: two outside Acknowledge calls of which the second is placed by the gate scheduler while a goroutine of the stream is held right after a query it made outside a transaction, publish more, wait}; start-up scripts (TestC11StartupRace: 40, thorough 150 runs of the minimal script \"limit 1 message, two messages, the first acknowledged outside the stream from inside its send call\" with the process kept busy by 2 x NumCPU spinning goroutines, no-send bound 6 s); in a quarter of the scripted-connection scripts the client answers the first 1-3 deliveries from inside the send call (stream ack or outside Acknowledge, then the send call is held 40 ms) so that the answer is digested before the send returns; "
+              "`extack-window`: two outside Acknowledge calls of which the second is placed by the gate scheduler while a goroutine of the stream is held right after a query it made outside a transaction, publish more, wait}; multi-stream runs (TestC11MultiStream, one case in 4, real clock and real concurrency): 2-3 real StreamingPull streams on ONE subscription with limits 1/2/3/10, clients that hold a message 0-5 ms and answer on the stream or with outside Acknowledge calls, a publisher publishing 10-60 messages in batches meanwhile - every stream keeps to its own limit at every moment, every message reaches exactly one stream exactly once, and all arrive within a bound derived from the limits and hold times (3-of-3); start-up scripts (TestC11StartupRace: 40, thorough 150 runs of the minimal script \"limit 1 message, two messages, the first acknowledged outside the stream from inside its send call\" with the process kept busy by 2 x NumCPU spinning goroutines, no-send bound 6 s); in a quarter of the scripted-connection scripts the client answers the first 1-3 deliveries from inside the send call (stream ack or outside Acknowledge, then the send call is held 40 ms) so that the answer is digested before the send returns; "
               "oracle: at every Send/SendBatch the messages outstanding from the client's point of view stay within max messages and max bytes (except a single oversized message sent on an empty "
               "window), no delivery is sent twice while outstanding, and whenever the client-side window has room for a deliverable message that fits, a send happens within 2 s (messages made deliverable by one request share a retry time, their fetch order is undefined and only a send that is owed under every order is demanded; a stall must "
               "reproduce 3 of 3); non-trivial = the window filled up at least once and capacity was later freed; distinct by hash of the script"),
